@@ -24,6 +24,7 @@ Section Spec.
 Variable E : Type.
 Variable keying_ : keying.
 Variable limited : bool.
+Variable inline : bool.
 Variable max : N.
 Variable aptx : bool.
 Variable vis : path -> bool.
@@ -54,7 +55,7 @@ Definition withdrawal_pending (s : state) (k : key) : Prop :=
 
 (* a change of k's prefix has been emitted by the RIB and not yet been processed *)
 Definition change_undelivered (s : state) (k : key) : Prop :=
-  exists c, In c (n_chan (s_nbr s)) /\ c_net c = fst k.
+  exists c, In (EvChange c) (n_chan (s_nbr s)) /\ c_net c = fst k.
 
 (* ---- the export rules in closed form.  [mk] says, per prefix and path, which LLGR-stale
    marker the exported form carries; for a from-scratch dump it is the live flag of the
@@ -132,32 +133,19 @@ Definition truthful (fl : list N) (r : rib) (l : label) : Prop :=
   | _ => True
   end.
 
-(* the open finding, as a predicate of (state, label) *)
-Definition refresh_race_label (s : state) (l : label) : Prop :=
-  l = Refresh /\ n_chan (s_nbr s) <> [].
-
-Definition ok_label (s : state) (l : label) : Prop :=
-  truthful (s_llgr s) (s_rib s) l /\ ~ refresh_race_label s l.
+Definition ok_label (s : state) (l : label) : Prop := truthful (s_llgr s) (s_rib s) l.
 
 Fixpoint ok_run (s : state) (ls : list label) : Prop :=
   match ls with
   | [] => True
-  | l :: t => ok_label s l /\ ok_run (step E keying_ limited max aptx vis polv s l) t
-  end.
-
-(* Known-finding class over whole histories *)
-Fixpoint Known_C01_refresh_race (s : state) (ls : list label) : Prop :=
-  match ls with
-  | [] => False
-  | l :: t => refresh_race_label s l \/
-              Known_C01_refresh_race (step E keying_ limited max aptx vis polv s l) t
+  | l :: t => ok_label s l /\ ok_run (step E keying_ limited inline max aptx vis polv s l) t
   end.
 
 Fixpoint truthful_run (s : state) (ls : list label) : Prop :=
   match ls with
   | [] => True
   | l :: t => truthful (s_llgr s) (s_rib s) l /\
-              truthful_run (step E keying_ limited max aptx vis polv s l) t
+              truthful_run (step E keying_ limited inline max aptx vis polv s l) t
   end.
 
 (* contract of [pol]: the LLGR_STALE marking is applied to an accepted route, it does not
